@@ -682,3 +682,36 @@ def static_resolver(program):  # type: ignore[no-untyped-def]
         return f if f is not None and "staticmethod" in f.decorators else None
 
     return resolve
+
+
+def scalar_is_base_array(check, rule: str = "V8") -> None:
+    """V8 (the coercion itself): `scalar(x)` hands back a *plain* numpy array of the library's float type - `np.asarray` / `np.array` with
+    `dtype=settings.float_type` - never a view that keeps the operand's own class (`np.asanyarray`, `subok=True`: for an `np.matrix`
+    or a masked array `*` and `**` are then not the elementwise operators every kernel relies on)."""
+    from ..absint import return_term  # noqa: F401  (module-level functions are resolved below)
+
+    p = check.program
+    fn = p.functions.get("scalar")
+    if fn is None:
+        raise AnalysisError("anchor vanished: fuzzylite.library.scalar")
+    check.analysed(fn)
+    r = Resolver(p, fn)
+    rets = [n for n in r.cfg.stmt_nodes() if isinstance(n.ast, ast.Return) and n.ast.value is not None]
+    why = None
+    for n in rets:
+        t = r.term(n.ast.value, n)
+        if not (t[0] == "call" and t[1][0] == "global"):
+            why = f"`{unparse(n.ast.value)[:60]}` is not a numpy conversion"
+            continue
+        g = t[1][1]
+        kw = dict(t[3])
+        if g not in ("numpy.asarray", "numpy.array", "numpy.ascontiguousarray"):
+            why = f"`{g}` keeps the class of an operand that is already an array (a subclass with operators of its own stays what it is)" if g in ("numpy.asanyarray",) \
+                else f"`{g}` is not one of the conversions to a plain array"
+        elif "subok" in kw and not (kw["subok"][0] == "const" and kw["subok"][1] is False):
+            why = "`subok=` keeps the class of an operand that is already an array"
+        elif "dtype" not in kw and len(t[2]) < 2:
+            why = "the conversion does not ask for the library's float type"
+    if not rets:
+        why = "scalar() returns nothing"
+    check.require(why is None, rule, "scalar/plain-array", "scalar(x) is numpy's conversion to a plain array of the library's float type" if why is None else f"scalar(): {why}", loc(fn))
